@@ -397,13 +397,16 @@ class CancelScope(AbstractCancelScope):
                     parent_scope.__deliver_cancellation()
                 break
 
-    @staticmethod
-    def __cancel_task_unless_done(task: asyncio.Task[Any], cancel_msg: str | None) -> None:
+    @classmethod
+    def __cancel_task_unless_done(cls, task: asyncio.Task[Any], cancel_msg: str | None) -> None:
         if task.done():
             return
         if not task.cancelling():
             # Whoever requested the postponed cancellation has withdrawn it in the meantime
             # (e.g. an asyncio.timeout() block which has been exited since): do not bring it back.
+            # A cancelled scope entered since then was relying on it to interrupt the task.
+            cls.__delayed_task_cancel_dict.pop(task, None)
+            cls._check_pending_cancellation(task)
             return
         task.uncancel()
         task.cancel(cancel_msg)
